@@ -95,6 +95,9 @@ fn d21_witnesses() -> Vec<(&'static str, &'static str, &'static str)> {
 fn main() {
     let mut ctx = Ctx::from_env("C02");
     let debug = std::env::var("VERIF_DEBUG").is_ok();
+    if debug {
+        std::panic::set_hook(Box::new(|i| eprintln!("PANIC: {i}")));
+    }
 
     // ---- known finding D21: replayed, never filtered from the main stream (the main stream is DepthSafe)
     let mut d21 = false;
